@@ -85,7 +85,8 @@ for i, p in enumerate(images):
     c.s.sendto(b'\0\2%%x/new.txt\0octet\0' %% (0x100 + i), srv.server_address)
     r = c.recv(); res['wrq'].append(r[0][:4].hex() if r else None); c.close()
     # write requests longer than a default-size DATA packet (a long path; a long unknown option after the mode)
-    for big in (b'\0\2%%x/' %% (0x100 + i) + b'n' * 650 + b'\0octet\0', b'\0\2%%x/new.txt\0octet\0' %% (0x100 + i) + b'x' * 560 + b'\0y\0',
+    for big in (b'\0\2%%x/kernel.img\0octet\0tsize\x004096\0' %% (0x100 + i), b'\0\2%%x/config.txt\0octet\0blksize\x00512\0' %% (0x100 + i),
+                b'\0\2%%x/' %% (0x100 + i) + b'n' * 650 + b'\0octet\0', b'\0\2%%x/new.txt\0octet\0' %% (0x100 + i) + b'x' * 560 + b'\0y\0',
                 b'\0\2%%x/d/' %% (0x100 + i) + b'\xc3\xa9' * 400 + b'\0netascii\0'):
         c = Client(srv.server_address, 1.0)
         c.s.sendto(big, srv.server_address)
@@ -185,6 +186,9 @@ def one_round(ctx, build, rnd):
                         wrqs = [serial + b'/new.txt\0octet\0', serial + b'/kernel.img\0octet\0', serial + b'/config.txt\0netascii\0',
                                 serial + 'caf\u00e9 \u65e5\u672c.txt'.encode('utf-8').join([b'/', b'\0octet\0']),
                                 serial + b'/a name with spaces.bin\0OCTET\0blksize\x001024\0tsize\x0012\0',
+                                # write requests WITH options (RFC 2347) for files that exist in the boot partition
+                                serial + b'/kernel.img\0octet\0tsize\x004096\0', serial + b'/config.txt\0octet\0blksize\x00512\0timeout\x005\0',
+                                serial + b'/kernel.img\0netascii\0unknownopt\0x\0', serial + b'/empty\0octet\0utimeout\x0050000\0',
                                 'gr\u00fc\u00dfe/\U0001F600.bin'.encode('utf-8') + b'\0octet\0', b'nosuchboard/x\0octet\0',
                                 serial + b'/' + b'n' * 300 + b'\0octet\0', b'/etc/passwd\0octet\0', serial + b'/../../x\0mail\0']
                         for k, w in enumerate(wrqs):
